@@ -34,7 +34,8 @@ type histWorld struct {
 	caller   erpc.Peer
 	mu       sync.Mutex
 	fwd      erpc.Session // proxy -> backend
-	fwdConn  *Conn        // backend end of the proxy-backend connection
+	fwdConn  *Conn
+	fwdConnP *Conn // the proxy's end of the backend connection        // backend end of the proxy-backend connection
 	viaProxy erpc.Session // caller -> proxy
 	direct   erpc.Session // caller -> backend
 	closed   erpc.Session // a session that was closed at start
@@ -56,7 +57,7 @@ func (w *histWorld) ensureFwd() erpc.Session {
 	w.mu.Lock()
 	defer w.mu.Unlock()
 	if w.fwd == nil || !w.fwd.Health() {
-		w.fwd, _, _, w.fwdConn = connectPeers(w.prox, w.backend, w.name("PX"), w.name("BK"))
+		w.fwd, _, w.fwdConnP, w.fwdConn = connectPeers(w.prox, w.backend, w.name("PX"), w.name("BK"))
 	}
 	return w.fwd
 }
